@@ -1385,6 +1385,8 @@ private:
       else if (idx >= GetNumItems()) this->MoveToBackAux(moveMe);
       else
       {
+         if (this->GetEntryAt(idx) == moveMe) return;  // already at the requested position:  don't unlink it (that would make iterators pass over it)
+
          RemoveIterationEntry(moveMe);
 
          HashtableEntryBase * insertAfter;
